@@ -151,11 +151,29 @@ func (s *SUT) FailWalk(rng *rand.Rand) (Op, []Problem) {
 	if !s.N.Ledger.ExistBlock(id) {
 		return Op{}, nil
 	}
+	// when the junk block sits directly on the state's block the walk has exactly one step, the
+	// one that fails: nothing may change, the pending transactions included (a walk first rolls
+	// the whole pool back). Longer walks may legitimately stop at an intermediate block.
+	direct := false
+	if jb, qerr := s.N.Ledger.QueryBlock(id); qerr == nil && string(jb.PreHash) == string(s.N.StateTip()) {
+		direct = true
+	}
+	var before snap
+	if direct {
+		before = s.snap()
+	}
 	err := s.N.Walk(id, false)
 	op := s.log(Op{Kind: "failwalk", Result: fmt.Sprint(err)})
 	s.Stats["failed.walk"]++
 	if err == nil {
+		if direct {
+			before.world.Drop()
+		}
 		return op, []Problem{{Sig: "junk-block-walked", Detail: "walk to a block containing an inadmissible transaction succeeded"}}
+	}
+	if direct {
+		s.Stats["failed.walk.direct"]++
+		return op, s.compareSnap(before, "walk:direct")
 	}
 	return op, nil
 }
